@@ -11,7 +11,7 @@
    The subscriber slots are fixed at 3 per component (Model.nslots, IpoeModel: three slots): theorems quantify over
    every slot index, the bound is that of the model, not of a theorem.  [vrep v = false] is the code before the
    fixes; only [_refuted] witnesses speak about it. *)
-From OV Require Import Common.Base C03.Model C03.Proofs C03.GateDefs C03.GateInv C03.GateMain C03.GateReject C03.GateObs C03.GateLeak.
+From OV Require Import Common.Base C03.Model C03.Proofs C03.GateDefs C03.GateInv C03.GateMain C03.GateReject C03.GateObs C03.GateLeak C03.GateLeakMain.
 
 (* Outside the Network/Open phases an IPCP, IPv6CP or IPv6 (RS / NS / DHCPv6 SOLICIT / DHCPv6 REQUEST) frame changes
    nothing and produces no output: internal/ppp/dispatcher.go inNetworkPhase.  (Every state, every variant; the
@@ -281,7 +281,7 @@ Print Assumptions C03_dataplane_failure_nonvacuous.
    address is taken (a prefix is resolved and leased with its pool name), the address comes back, it solicits again: the
    address is resolved, the provider reserves both again and the prefix lease forgets its pool; PADT before any REPLY then
    returned the address but not the prefix.  Since 277708f ([vnm]) it returns both.
-   The general theorem is still open: it needs the invariant "accepted and live => still Network/Open" in GateInv. *)
+   The general theorem for the repaired code is C03_teardown_no_leak below. *)
 Definition ev_relate :=
   let up i k := [EvOpen i; EvFrame i (FrLcp (FCreq QGood)); EvFrame i (FrLcp (FCack true)); EvFrame i FrChapResp; EvAAA k AAcc;
                  EvFrame i (FrIp6cp (FCreq QGood)); EvFrame i (FrIp6cp (FCack true))] in
@@ -295,26 +295,37 @@ Example C03_teardown_leak_pre_277708f_refuted :
 Proof. intros head. repeat match goal with |- _ /\ _ => split end; timeout 20 (vm_compute; reflexivity). Qed.
 Print Assumptions C03_teardown_leak_pre_277708f_refuted.
 
-(* C03_teardown_no_leak_partial (GateLeak.v).  [v6ok]: per IPv6 family the session has taken nothing, or exactly one
-   address / prefix which the AllocCtx knows and which s.IPv6Address / s.IPv6Prefix or a provider lease that knows its pool
-   refers to.  PROVED, from EVERY state, every variant with [vnm] (277708f): (1) whoever satisfies it gets back from
-   terminate + ReleaseLease exactly what it took ([xn = released], the IPv6 part of [leaks] = false); (2) every event
-   preserves it for every slot — PADR, every frame incl. DHCPv6 SOLICIT / REQUEST with late resolution and re-reservation,
-   timers, PADT, dead peer, reject, dataplane completion / failure — PROVIDED every allowed AAA answer that takes effect
-   hits a session without IPv6 lease state ([fresh_accepts]); (3) hence over histories under that proviso at each step.
-   MISSING for the unconditional theorem: [fresh_accepts] itself, i.e. "a live session that has been accepted is still in
-   Network/Open" (an accept needs Authenticate: C03_aaa_correlation + GI.gi_pend; with [vtd] a link that leaves Opened is
-   torn down), which needs (a) a phase lemma "in Network/Open with LCP Opened, a handler either stays there or emits
-   GLcpDown" for lcp_apply / ncp_apply / every frame, (b) "Timeout in LCP Opened does nothing", (c) "the accept ends in
-   Network/Open", threaded with GateInv.Inv through GateMain.step_Inv. *)
-Theorem C03_teardown_no_leak_partial :
-  (forall s, v6ok (v6 s) ->
-     xn (na (v6 s)) = released (na (v6 s)) /\ xn (pd (v6 s)) = released (pd (v6 s))) /\
-  (forall v st e, vnm v = true -> all_ok st -> fresh_accepts v st e -> all_ok (fst (step v st e))) /\
-  (forall v evs pool p6 ppd, vnm v = true -> fresh_run v (init3 pool p6 ppd) evs ->
-     all_ok (fst (run v (init3 pool p6 ppd) evs))).
-Proof. exact GateLeak.teardown_no_leak_partial. Qed.
-Print Assumptions C03_teardown_no_leak_partial.
+(* C03_teardown_no_leak (GateLeak.v, GateLeakMain.v): teardown returns every IPv6 lease on the repaired code.
+   [good v]: vrep, vhl (0709f1b), vtd (e9950ea), vnm (277708f) — /repo HEAD, either FSM table.  After ANY history from any
+   pool sizes, every session of every slot — live, torn down, or at the very step of its teardown — has per IPv6 family
+   taken nothing, or exactly one address / prefix to which s.IPv6Address / s.IPv6Prefix or a provider lease that knows its
+   pool refers: so terminate + ReleaseLease return exactly what it took ([xn = released]: the IPv6 disjuncts of
+   Model.leaks are false whenever the session is torn down), and a live session that is not in Network/Open has no IPv6
+   lease state at all.  Ingredients: GateInv.Inv (an accept needs Authenticate), "in Network/Open with LCP Opened a handler
+   stays there or emits GLcpDown" (then [vtd] tears the session down), "Timeout in LCP Opened does nothing", "the accept
+   ends in Network/Open", and the preservation of the per-family invariant by DHCPv6 with late resolution and
+   re-reservation.  Each of vtd / vnm is needed: C03_ipv6_reneg_leak_refuted, C03_teardown_leak_pre_277708f_refuted.
+   NOT covered: the IPv4 disjunct of [leaks] (a pool lease shadowed by another address: onIPCPUp copies the address the
+   client's acknowledged Configure-Request carried) — monitored on both sides only. *)
+Theorem C03_teardown_no_leak : forall v pool p6 ppd evs i s, good v ->
+  nth_error (sl (fst (run v (init3 pool p6 ppd) evs))) i = Some s ->
+  xn (na (v6 s)) = released (na (v6 s)) /\ xn (pd (v6 s)) = released (pd (v6 s)) /\
+  (live s = true -> in_net (ph s) = false -> v6 s = v60).
+Proof. exact GateLeakMain.teardown_no_leak. Qed.
+Print Assumptions C03_teardown_no_leak.
+Example C03_teardown_no_leak_nonvacuous :
+  good (mkV true false) /\ good (mkV true true) /\
+  (* the history of C03_teardown_leak_pre_277708f_refuted: subscriber 1 is torn down holding a prefix known only to the
+     provider's lease; it took one and one is returned *)
+  option_map (fun s => (live s, xn (pd (v6 s)), released (pd (v6 s)), xs (pd (v6 s))))
+    (nth_error (sl (fst (run (mkV true false) (init3 2 1 16) ev_relate))) 1) = Some (false, 1, 1, None) /\
+  (* an Open session with both leases bound by a REPLY *)
+  option_map (fun s => (live s, xn (na (v6 s)), released (na (v6 s)), xn (pd (v6 s)), released (pd (v6 s))))
+    (nth_error (sl (fst (run (mkV true false) (init3 2 16 16) (ev_open6 ++ [EvFrame 0 FrDh6Req])))) 0) = Some (true, 1, 1, 1, 1).
+Proof.
+  split; [repeat split|]. split; [repeat split|]. split; timeout 20 (vm_compute; reflexivity).
+Qed.
+Print Assumptions C03_teardown_no_leak_nonvacuous.
 
 (* C03_renegotiation_reauth.  Split any history at a point where slot i's monitor holds no accept (mn1; in
    particular right after LCP left Opened, [C03_lcp_down_clears_accept]).  If in the continuation no allowed AAA
